@@ -21,6 +21,7 @@
 #include <AIToolbox/Factored/Utils/Core.hpp>
 #include <AIToolbox/Seeder.hpp>
 #include <random>
+#include <map>
 
 using namespace verif;
 namespace M = AIToolbox::MDP;
@@ -120,6 +121,17 @@ struct FlatRun {
     }
     void allMod(bool matrix = false) { for (size_t s = 0; s < o.S; ++s) for (size_t a = 0; a < o.A; ++a) matrix ? obsModMatrix(s, a) : obsMod(s, a); }
     void allExp() { for (size_t s = 0; s < o.S; ++s) for (size_t a = 0; a < o.A; ++a) obsExp(s, a); h.n(exp.getTimesteps()); }
+    // the same data through the table accessors (getVisitsTable() / getVisitsTable(a) / getVisitsSumTable / getRewardMatrix / getM2Matrix)
+    void allExpTables() {
+        if constexpr (requires { exp.getVisitsSumTable(); exp.getVisitsTable(); }) {
+            for (size_t s = 0; s < o.S; ++s) for (size_t a = 0; a < o.A; ++a) {
+                for (size_t s1 = 0; s1 < o.S; ++s1) h.n((s1 % 2) ? exp.getVisitsTable()[a].coeff(s, s1) : exp.getVisitsTable(a).coeff(s, s1));
+                h.n(exp.getVisitsSumTable().coeff(s, a)).d(exp.getRewardMatrix().coeff(s, a)).d(exp.getM2Matrix().coeff(s, a));
+            }
+            h.n(exp.getTimesteps());
+            std::printf("#stat final_dump_through_table_accessors 1\n");
+        } else allExp();
+    }
 
     void doRecord(size_t s, size_t a, size_t s1, double r) {
         exp.record(s, a, s1, r);
@@ -172,7 +184,7 @@ struct FlatRun {
         return rng.below(np);
     }
     void finish(double junk) {
-        h.t("E"); allExp(); if (mod) allMod(true); h.op();
+        h.t("E"); allExpTables(); if (mod) allMod(true); h.op();
         h.hasModel = (bool)mod;
         h.emit(junk);
     }
@@ -250,64 +262,126 @@ static void banditCase(Rng & rng, long nops, int rewardMode, double junk) {
     h.emit(junk);
 }
 
-// own mixed-radix index of the action restricted to `keys` (first key least significant)
-static size_t partialIndex(const F::PartialKeys & keys, const F::Factors & space, const F::Factors & full) {
-    size_t id = 0, mult = 1;
-    for (auto k : keys) { id += mult * full[k]; mult *= space[k]; }
-    return id;
+// generic token buffer for the keyed (factored-API) lines: header tokens, then ops, op count filled in at the end
+struct KLine {
+    std::vector<std::string> head, toks; size_t nops = 0;
+    KLine & t(const std::string & s) { toks.push_back(s); return *this; }
+    KLine & n(size_t x) { toks.push_back(std::to_string(x)); return *this; }
+    KLine & d(double x) { toks.push_back(X(x)); return *this; }
+    template <class V> KLine & v(const V & xs) { for (auto x : xs) n((size_t)x); return *this; }
+    KLine & hn(size_t x) { head.push_back(std::to_string(x)); return *this; }
+    KLine & hd(double x) { head.push_back(X(x)); return *this; }
+    template <class V> KLine & hlist(const V & xs) { hn(xs.size()); for (auto x : xs) hn((size_t)x); return *this; }
+    void op() { ++nops; }
+    void emit(const char * kind) {
+        Line l; l << "C07" << kind;
+        for (auto & s : head) l << s;
+        l << nops;
+        for (auto & s : toks) l << s;
+        l.emit();
+    }
+};
+
+// a sorted random non-empty subset of {0..n-1} with at most `maxk` elements; `nonPrefix`: avoid {0..k-1} when possible
+static F::PartialKeys randomTag(Rng & rng, size_t n, size_t maxk, bool nonPrefix) {
+    for (int attempt = 0; attempt < 8; ++attempt) {
+        F::PartialKeys t;
+        for (size_t k = 0; k < n; ++k) if (rng.coin() && t.size() < maxk) t.push_back(k);
+        if (t.empty()) t.push_back(rng.below(n));
+        bool prefix = true; for (size_t k = 0; k < t.size(); ++k) if (t[k] != k) prefix = false;
+        if (!nonPrefix || !prefix || n == 1 || attempt == 7) return t;
+    }
+    return {0};
 }
 
-// Factored::Bandit::Experience: one line per basis
-static void fbanditCase(Rng & rng, long nops, int rewardMode, double junk) {
+// Factored::Bandit::Experience at the level of its API: record(a, rews) with full joint actions; the driver resolves the
+// entry with its own toIndexPartial and checks the statistics against the records with the same local joint action
+static void fbanditCase(Rng & rng, long nops, int rewardMode, double, bool witness = false) {
     size_t nAgents = (size_t)rng.range(1, 4);
-    F::Action A(nAgents); for (auto & x : A) x = (size_t)rng.range(1, 3);
+    F::Action A(nAgents); for (auto & x : A) x = (size_t)rng.range(1, 4);
     size_t nb = (size_t)rng.range(1, 3);
     std::vector<F::PartialKeys> deps(nb);
-    for (auto & d : deps) { for (size_t k = 0; k < nAgents; ++k) if (rng.coin()) d.push_back(k); if (d.empty()) d.push_back(rng.below(nAgents)); }
+    for (auto & d : deps) d = randomTag(rng, nAgents, 3, rng.coin(2, 3));
+    if (witness) { nAgents = 3; A = {2, 4, 3}; nb = 3; deps = {{0, 2}, {1}, {0, 1, 2}}; }   // non-uniform sizes, a non-prefix tag, a three-key tag
     F::Bandit::Experience exp(A, deps);
-    std::vector<Hist> hs;
-    for (size_t i = 0; i < nb; ++i) hs.emplace_back("fbandit", F::factorSpacePartial(deps[i], A), 0, 0, false);
-    auto dump = [&](size_t i) {
-        Hist & h = hs[i];
-        for (size_t j = 0; j < h.np; ++j) h.n(exp.getVisitsTable()[i][j]).d(exp.getRewardMatrix().bases[i].values[j]).d(exp.getM2Matrix()[i][j]);
+    KLine h; h.hlist(A); h.hn(nb); for (auto & d : deps) h.hlist(d);
+    h.hn(exp.getRewardMatrix().bases.size()); for (auto & b : exp.getRewardMatrix().bases) h.hlist(b.tag);        // what the object reports back
+    h.hn(exp.getDependencies().size()); for (auto & d : exp.getDependencies()) h.hlist(d);
+    h.hlist(exp.getA());
+    for (size_t i = 0; i < nb; ++i) h.hn(exp.getVisitsTable()[i].size());
+    bool nonUniform = false; for (auto x : A) if (x != A[0]) nonUniform = true;
+    auto dump = [&]() {
+        for (size_t i = 0; i < nb; ++i) for (size_t j = 0; j < exp.getVisitsTable()[i].size(); ++j)
+            h.n(exp.getVisitsTable()[i][j]).d(exp.getRewardMatrix().bases[i].values[j]).d(exp.getM2Matrix()[i][j]);
         h.n(exp.getTimesteps());
     };
+    std::vector<F::Action> pool(3, F::Action(nAgents));
+    for (auto & a : pool) for (size_t q = 0; q < nAgents; ++q) a[q] = rng.below(A[q]);
     for (long k = 0; k < nops; ++k) {
-        if (rng.coin(1, 40)) { exp.reset(); for (size_t i = 0; i < nb; ++i) { hs[i].t("R"); dump(i); hs[i].op(); } continue; }
-        F::Action a(nAgents); for (size_t q = 0; q < nAgents; ++q) a[q] = rng.below(A[q]);
+        if (rng.coin(1, 40)) { exp.reset(); h.t("R"); dump(); h.op(); continue; }
+        F::Action a(nAgents);
+        if (rng.coin()) a = rng.pick(pool); else for (size_t q = 0; q < nAgents; ++q) a[q] = rng.below(A[q]);
         F::Rewards rews(nb); for (size_t i = 0; i < nb; ++i) rews[i] = drawReward(rng, rewardMode);
         const auto & ids = exp.record(a, rews);
-        for (size_t i = 0; i < nb; ++i) {
-            size_t j = partialIndex(deps[i], A, a);
-            if (ids[i] != j) std::printf("#stat fbandit_returned_index_differs 1\n");
-            Hist & h = hs[i];
-            h.t("r").n(j).n(0).d(rews[i]).n(exp.getVisitsTable()[i][j]).d(exp.getRewardMatrix().bases[i].values[j]).d(exp.getM2Matrix()[i][j]).n(exp.getTimesteps()); h.op();
-        }
+        h.t("r").v(a); for (size_t i = 0; i < nb; ++i) h.d(rews[i]);
+        h.v(ids);
+        for (size_t i = 0; i < nb; ++i) { size_t j = ids[i]; h.n(exp.getVisitsTable()[i][j]).d(exp.getRewardMatrix().bases[i].values[j]).d(exp.getM2Matrix()[i][j]); }
+        h.n(exp.getTimesteps()); h.op();
     }
-    for (size_t i = 0; i < nb; ++i) { hs[i].t("E"); dump(i); hs[i].op(); hs[i].emit(junk); }
+    h.t("E"); dump(); h.op();
+    h.emit("fbhist");
+    if (nonUniform) std::printf("#stat fbandit_nonuniform_A 1\n");
+    for (auto & d : deps) { bool prefix = true; for (size_t k = 0; k < d.size(); ++k) if (d[k] != k) prefix = false; if (!prefix) { std::printf("#stat fbandit_nonprefix_tag 1\n"); break; } }
 }
 
 // ---------------------------------------------------------------------------------------------
-// CooperativeExperience × CooperativeMaximumLikelihoodModel (+ CooperativeThompsonModel): one line per feature
-static F::DDNGraph randomGraph(Rng & rng) {
-    size_t nf = (size_t)rng.range(1, 3), na = (size_t)rng.range(1, 2);
-    F::State S(nf); for (auto & x : S) x = (size_t)rng.range(2, 3);
-    F::Action A(na); for (auto & x : A) x = (size_t)rng.range(1, 2);
+// CooperativeExperience × CooperativeMaximumLikelihoodModel (+ CooperativeThompsonModel) at the level of their API
+static F::DDNGraph randomGraph(Rng & rng, bool rich = true) {
+    size_t nf = (size_t)rng.range(1, rich ? 4 : 3), na = (size_t)rng.range(1, rich ? 3 : 2);
+    F::State S(nf); for (auto & x : S) x = (size_t)rng.range(rng.coin(1, 8) ? 1 : 2, rich ? 4 : 3);
+    F::Action A(na); for (auto & x : A) x = (size_t)rng.range(1, rich ? 4 : 2);
+    // make S[k] != A[k] on the common positions most of the time (an index computed with the wrong space then differs)
+    if (rich && rng.coin(3, 4)) for (size_t k = 0; k < std::min(nf, na); ++k) if (S[k] == A[k]) A[k] = (A[k] % 4) + 1;
     F::DDNGraph g(S, A);
     for (size_t i = 0; i < nf; ++i) {
         F::DDNGraph::ParentSet ps;
-        for (size_t k = 0; k < na; ++k) if (rng.coin()) ps.agents.push_back(k);
-        if (ps.agents.empty()) ps.agents.push_back(rng.below(na));
+        if (rich && na >= 2 && rng.coin(2, 3)) { ps.agents = randomTag(rng, na, 3, false); if (ps.agents.size() < 2) { ps.agents.clear(); size_t a0 = rng.below(na - 1); ps.agents = {a0, a0 + 1 + rng.below(na - a0 - 1)}; } }
+        else ps.agents = randomTag(rng, na, 2, false);
         size_t nj = F::factorSpacePartial(ps.agents, A);
+        size_t budget = 64;
         for (size_t j = 0; j < nj; ++j) {
-            F::PartialKeys fk;
-            for (size_t k = 0; k < nf; ++k) if (rng.coin()) fk.push_back(k);
-            if (fk.empty()) fk.push_back(rng.below(nf));
+            size_t left = nj - j;   // every remaining set needs at least... keep each under budget / left
+            F::PartialKeys fk = randomTag(rng, nf, rich ? 3 : 2, rich && rng.coin(2, 3));
+            while (fk.size() > 1 && F::factorSpacePartial(fk, S) > std::max<size_t>(4, budget / left)) fk.erase(fk.begin() + (long)rng.below(fk.size()));
+            budget -= std::min(budget, F::factorSpacePartial(fk, S));
             ps.features.push_back(fk);
         }
         g.push(std::move(ps));
     }
     return g;
+}
+
+static void graphHeader(KLine & h, const F::DDNGraph & g) {
+    h.hlist(g.getS()); h.hlist(g.getA());
+    for (auto & ps : g.getParentSets()) { h.hlist(ps.agents); h.hn(ps.features.size()); for (auto & f : ps.features) h.hlist(f); }
+    for (size_t i = 0; i < g.getS().size(); ++i) h.hn(g.getSize(i));
+}
+
+static void graphStats(const F::DDNGraph & g) {
+    const auto & S = g.getS(); const auto & A = g.getA();
+    bool multi = false, nonprefix = false, sneA = false, nonuni = false;
+    for (auto & ps : g.getParentSets()) {
+        if (ps.agents.size() >= 2) multi = true;
+        for (auto k : ps.agents) if (k < S.size() && S[k] != A[k]) sneA = true;
+        for (auto & f : ps.features) for (size_t k = 0; k < f.size(); ++k) if (f[k] != k) nonprefix = true;
+    }
+    for (auto x : S) if (x != S[0]) nonuni = true;
+    for (auto x : A) if (x != A[0]) nonuni = true;
+    if (multi) std::printf("#stat coop_multiagent_parents 1\n");
+    if (nonprefix) std::printf("#stat coop_nonprefix_parent_features 1\n");
+    if (sneA) std::printf("#stat coop_S_ne_A_on_parent_agents 1\n");
+    if (nonuni) std::printf("#stat coop_nonuniform_sizes 1\n");
+    if (multi && sneA) std::printf("#stat coop_multiagent_and_S_ne_A 1\n");
 }
 
 static void thompsonLineCoop(const FM::CooperativeExperience & exp, const FM::CooperativeThompsonModel & tm, size_t i) {
@@ -323,71 +397,142 @@ static void thompsonLineCoop(const FM::CooperativeExperience & exp, const FM::Co
     l.emit();
 }
 
-static void coopCase(Rng & rng, long nops, int rewardMode, double junk, bool withThompson) {
-    F::DDNGraph g = randomGraph(rng);
-    const auto & S = g.getS(); const auto & A = g.getA();
-    size_t nf = S.size();
-    FM::CooperativeExperience exp(g);
-    std::unique_ptr<FM::CooperativeMaximumLikelihoodModel> mod;
-    std::vector<Hist> hs;
-    for (size_t i = 0; i < nf; ++i) hs.emplace_back("coop", g.getSize(i), S[i], 0, true);
-    auto obsExp = [&](size_t i, size_t j) {
-        Hist & h = hs[i];
+// scripted coop op: {kind, s.., a.., s1.., rews..}  (used by the fixed witness cases)
+struct CoopRun {
+    F::DDNGraph g; FM::CooperativeExperience exp; std::unique_ptr<FM::CooperativeMaximumLikelihoodModel> mod; KLine h; size_t nf, na;
+    CoopRun(F::DDNGraph gg, double junk) : g(std::move(gg)), exp(g), nf(g.getS().size()), na(g.getA().size()) { graphHeader(h, g); h.hn(0); h.hd(junk); }
+    void obsExp(size_t i, size_t j) {
+        const auto & S = g.getS();
         for (size_t k = 0; k < S[i]; ++k) h.n(exp.getVisitsTable()[i](j, k));
         h.n(exp.getVisitsTable()[i](j, S[i])).d(exp.getRewardMatrix()[i][j]).d(exp.getM2Matrix()[i][j]);
-    };
-    auto obsMod = [&](size_t i, size_t j) {
-        Hist & h = hs[i];
+    }
+    void obsMod(size_t i, size_t j) {
+        const auto & S = g.getS();
         for (size_t k = 0; k < S[i]; ++k) h.d(mod->getTransitionFunction().transitions[i](j, k));
         h.d(mod->getRewardFunction()[i][j]);
-    };
-    auto allMod = [&](size_t i) { for (size_t j = 0; j < hs[i].np; ++j) obsMod(i, j); };
-    auto allExp = [&](size_t i) { for (size_t j = 0; j < hs[i].np; ++j) obsExp(i, j); hs[i].n(exp.getTimesteps()); };
-    auto ctor = [&](bool b) { mod.reset(new FM::CooperativeMaximumLikelihoodModel(exp, 0.9, b)); for (size_t i = 0; i < nf; ++i) { hs[i].t("c").n(b); allMod(i); hs[i].op(); } };
+    }
+    void allMod() { for (size_t i = 0; i < nf; ++i) for (size_t j = 0; j < g.getSize(i); ++j) obsMod(i, j); }
+    void allExp() { for (size_t i = 0; i < nf; ++i) for (size_t j = 0; j < g.getSize(i); ++j) obsExp(i, j); h.n(exp.getTimesteps()); }
+    FM::CooperativeExperience::Indeces record(const F::State & s, const F::Action & a, const F::State & s1, const F::Rewards & rews) {
+        const auto & ids = exp.record(s, a, s1, rews);
+        h.t("r").v(s).v(a).v(s1); for (size_t i = 0; i < nf; ++i) h.d(rews[i]);
+        h.v(ids);
+        for (size_t i = 0; i < nf; ++i) obsExp(i, ids[i]);
+        h.n(exp.getTimesteps()); h.op();
+        return ids;
+    }
+    void syncSA(const F::State & s, const F::Action & a) {
+        mod->sync(s, a);
+        h.t("s").v(s).v(a);
+        for (size_t i = 0; i < nf; ++i) { size_t j = g.getId(i, s, a); h.n(j); obsMod(i, j); }
+        h.op();
+    }
+    void syncIdx(const F::State & s, const F::Action & a, const FM::CooperativeExperience::Indeces & ids) {
+        mod->sync(ids);
+        h.t("x").v(s).v(a).v(ids);
+        for (size_t i = 0; i < nf; ++i) obsMod(i, ids[i]);
+        h.op();
+    }
+    void syncAll() { mod->sync(); h.t("S"); allMod(); h.op(); }
+    void ctor(bool b) { mod.reset(new FM::CooperativeMaximumLikelihoodModel(exp, 0.9, b)); h.t("c").n(b); allMod(); h.op(); }
+    void reset() { exp.reset(); h.t("R"); allExp(); h.op(); }
+    void query(const F::State & s, const F::Action & a, const F::State & s1) {
+        h.t("q").v(s).v(a).v(s1).d(mod->getTransitionProbability(s, a, s1)).d(mod->getExpectedReward(s, a, s1));
+        auto rv = mod->getExpectedRewards(s, a, s1);
+        for (size_t i = 0; i < nf; ++i) h.d(rv[i]);
+        h.op();
+    }
+    void finish() {
+        h.t("E"); allExp(); h.n(mod ? 1 : 0); if (mod) allMod(); h.op(); h.emit("coophist");
+        std::map<std::string, long> cnt;
+        for (auto & t : h.toks) if (t == "r" || t == "s" || t == "x" || t == "S" || t == "c" || t == "R" || t == "q") ++cnt[t];
+        static const std::map<std::string, const char *> nm = {{"r", "record"}, {"s", "syncSA"}, {"x", "syncIndeces"}, {"S", "syncAll"}, {"c", "ctor"}, {"R", "reset"}, {"q", "query"}};
+        for (auto & [k, v] : cnt) std::printf("#stat coop_op_%s %ld\n", nm.at(k), v);
+    }
+};
+
+
+// what a cooperative learned model ANSWERS against what it EXPOSES: its tables, then queries getTransitionProbability /
+// getExpectedReward(s); when the joint next-state space is small every s1 is queried (the driver also checks that they sum to one)
+template <class Mod>
+static void coopQueryLine(const char * comp, const F::DDNGraph & g, const Mod & m, Rng & rng, int nq) {
+    const auto & S = g.getS(); const auto & A = g.getA();
+    size_t nf = S.size(), na = A.size();
+    KLine h; h.head.push_back(comp); graphHeader(h, g);
+    for (size_t i = 0; i < nf; ++i) for (size_t j = 0; j < g.getSize(i); ++j) {
+        for (size_t k = 0; k < S[i]; ++k) h.hd(m.getTransitionFunction().transitions[i](j, k));
+        h.hd(m.getRewardFunction()[i][j]);
+    }
+    size_t space = 1; for (auto x : S) space *= x;
+    bool full = space <= 96;
+    for (int q = 0; q < nq; ++q) {
+        F::State s(nf); F::Action a(na);
+        for (size_t k = 0; k < nf; ++k) s[k] = rng.below(S[k]);
+        for (size_t k = 0; k < na; ++k) a[k] = rng.below(A[k]);
+        F::State z(nf, 0);
+        h.t("q").v(s).v(a).d(m.getExpectedReward(s, a, z));
+        auto rv = m.getExpectedRewards(s, a, z); for (size_t i = 0; i < nf; ++i) h.d(rv[i]);
+        size_t K = full ? space : 6;
+        h.n(full ? 1 : 0).n(K);
+        for (size_t c = 0; c < K; ++c) {
+            F::State s1(nf);
+            if (full) { size_t id = c; for (size_t k = 0; k < nf; ++k) { s1[k] = id % S[k]; id /= S[k]; } }
+            else for (size_t k = 0; k < nf; ++k) s1[k] = rng.below(S[k]);
+            h.v(s1).d(m.getTransitionProbability(s, a, s1));
+        }
+        h.op();
+    }
+    h.emit("coopq");
+    std::printf("#stat coop_query_line_%s 1\n", full ? "full_joint" : "sampled_joint");
+}
+
+static void coopCase(Rng & rng, long nops, int rewardMode, double junk, bool withThompson, bool rich = true) {
+    CoopRun cr(randomGraph(rng, rich), junk);
+    const auto & S = cr.g.getS(); const auto & A = cr.g.getA();
+    size_t nf = cr.nf, na = cr.na;
+    graphStats(cr.g);
+    // small pools of joint states / actions so that contexts collect several visits, plus fully random ones
+    std::vector<F::State> spool((size_t)rng.range(2, 4), F::State(nf)); std::vector<F::Action> apool((size_t)rng.range(1, 3), F::Action(na));
+    for (auto & s : spool) for (size_t q = 0; q < nf; ++q) s[q] = rng.below(S[q]);
+    for (auto & a : apool) for (size_t q = 0; q < na; ++q) a[q] = rng.below(A[q]);
+    auto drawS = [&]() { F::State s(nf); if (rng.coin(3, 4)) s = rng.pick(spool); else for (size_t q = 0; q < nf; ++q) s[q] = rng.below(S[q]); return s; };
+    auto drawA = [&]() { F::Action a(na); if (rng.coin(2, 3)) a = rng.pick(apool); else for (size_t q = 0; q < na; ++q) a[q] = rng.below(A[q]); return a; };
+    auto drawS1 = [&]() { F::State s(nf); for (size_t q = 0; q < nf; ++q) s[q] = rng.coin() ? rng.below(std::min<size_t>(2, S[q])) : rng.below(S[q]); return s; };
     bool first = rng.coin(); bool flag = rng.coin();
     long after = rng.range(1, 12), records = 0;
-    if (first) ctor(flag);
-    F::State ls; F::Action la; bool haveLast = false;
+    if (first) cr.ctor(flag);
+    F::State ls; F::Action la; FM::CooperativeExperience::Indeces lids; bool haveLast = false;
     for (long k = 0; k < nops; ++k) {
-        if (!mod && records >= after) { ctor(flag); continue; }
+        if (!cr.mod && records >= after) { cr.ctor(flag); continue; }
         unsigned roll = (unsigned)rng.below(1000);
-        if (!mod || roll < 650) {
-            F::State s(nf), s1(nf); F::Action a(A.size());
-            // a few hot joint states so that rows collect several visits
-            for (size_t q = 0; q < nf; ++q) { s[q] = rng.coin(3, 4) ? 0 : rng.below(S[q]); s1[q] = rng.below(S[q]); }
-            for (size_t q = 0; q < A.size(); ++q) a[q] = rng.below(A[q]);
+        if (!cr.mod || roll < 600) {
+            F::State s = drawS(), s1 = drawS1(); F::Action a = drawA();
             F::Rewards rews(nf); for (size_t i = 0; i < nf; ++i) rews[i] = drawReward(rng, rewardMode);
-            const auto & ids = exp.record(s, a, s1, rews); ++records;
-            for (size_t i = 0; i < nf; ++i) {
-                size_t j = g.getId(i, s, a);
-                if (ids[i] != j) std::printf("#stat coop_returned_index_differs 1\n");
-                hs[i].t("r").n(j).n(s1[i]).d(rews[i]); obsExp(i, j); hs[i].n(exp.getTimesteps()); hs[i].op();
-            }
+            lids = cr.record(s, a, s1, rews); ++records;
             ls = s; la = a; haveLast = true;
-            if (mod && rng.coin(1, 3)) {
-                if (rng.coin()) mod->sync(s, a); else mod->sync(ids);
-                for (size_t i = 0; i < nf; ++i) { size_t j = g.getId(i, s, a); hs[i].t("s").n(j); obsMod(i, j); hs[i].op(); }
-            }
-        } else if (roll < 800 && haveLast) {
-            mod->sync(ls, la);
-            for (size_t i = 0; i < nf; ++i) { size_t j = g.getId(i, ls, la); hs[i].t("s").n(j); obsMod(i, j); hs[i].op(); }
+            if (cr.mod && rng.coin(1, 3)) { if (rng.coin()) cr.syncSA(s, a); else cr.syncIdx(s, a, lids); }
+        } else if (roll < 720 && haveLast) {
+            if (rng.coin()) cr.syncSA(ls, la); else { F::State s = drawS(); F::Action a = drawA(); cr.syncSA(s, a); }
+        } else if (roll < 800) {
+            cr.syncAll();
         } else if (roll < 930) {
-            mod->sync();
-            for (size_t i = 0; i < nf; ++i) { hs[i].t("S"); allMod(i); hs[i].op(); }
+            F::State s = rng.coin() && haveLast ? ls : drawS(); F::Action a = rng.coin() && haveLast ? la : drawA();
+            cr.query(s, a, drawS1());
         } else if (roll < 960) {
-            exp.reset();
-            for (size_t i = 0; i < nf; ++i) { hs[i].t("R"); allExp(i); hs[i].op(); }
+            cr.reset();
         } else if (roll < 980) {
-            ctor(rng.coin());
+            cr.ctor(rng.coin());
         }
     }
     if (withThompson) {
-        FM::CooperativeThompsonModel tm(exp, 0.9);
-        for (size_t i = 0; i < nf; ++i) thompsonLineCoop(exp, tm, i);
+        FM::CooperativeThompsonModel tm(cr.exp, 0.9);
+        for (size_t i = 0; i < nf; ++i) thompsonLineCoop(cr.exp, tm, i);
         tm.sync();
-        for (size_t i = 0; i < nf; ++i) thompsonLineCoop(exp, tm, i);
+        for (size_t i = 0; i < nf; ++i) thompsonLineCoop(cr.exp, tm, i);
+        coopQueryLine("CooperativeThompsonModel", cr.g, tm, rng, 4);
     }
-    for (size_t i = 0; i < nf; ++i) { hs[i].t("E"); allExp(i); if (mod) allMod(i); hs[i].op(); hs[i].hasModel = (bool)mod; hs[i].emit(junk); }
+    if (cr.mod) coopQueryLine("CooperativeMaximumLikelihoodModel", cr.g, *cr.mod, rng, 3);
+    cr.finish();
 }
 
 // ---------------------------------------------------------------------------------------------
@@ -522,6 +667,7 @@ static void tsyncCoopCase(Rng & rng, long nrec, int rewardMode) {
         if (rng.coin(1, 40)) { syncAllShadow(); tm.sync(); emit(tm); }
     }
     emit(tm);
+    coopQueryLine("CooperativeThompsonModel", g, tm, rng, 3);
 }
 
 // ---------------------------------------------------------------------------------------------
@@ -619,6 +765,9 @@ template <class Run>
 static void randomFlat(const char * variant, Rng & rng, const std::string & tier, long idx, bool junkClass, double junk) {
     FlatOpts o;
     o.S = (size_t)rng.range(1, 5); o.A = (size_t)rng.range(1, 3);
+    // now and then a wider state space (Eigen takes its packet / unrolled paths for rows of 8+ doubles) and more actions
+    bool wide = rng.coin(1, 10);
+    if (wide) { o.S = (size_t)rng.range(6, 19); o.A = (size_t)rng.range(1, 5); }
     long maxOps = tier == "thorough" ? 1500 : 200;
     o.nops = rng.coin(1, 4) ? rng.range(3, 20) : rng.range(20, maxOps);
     o.rewardMode = rng.coin(1, 6) ? 1 : (rng.coin(1, 12) ? 2 : 0);
@@ -634,7 +783,8 @@ static void randomFlat(const char * variant, Rng & rng, const std::string & tier
     o.hot = rng.coin() ? (size_t)rng.range(1, 3) : 0;
     Run fr(o, rng, variant);
     fr.run(junk);
-    std::printf("#stat flat_%s 1\n#stat S_%zu 1\n#stat ops_%s 1\n", variant, o.S, o.nops < 20 ? "lt20" : (o.nops < 200 ? "lt200" : "ge200"));
+    if (wide) std::printf("#stat flat_wide_S_6_to_19 1\n");
+    std::printf("#stat flat_%s 1\n#stat S_%zu 1\n#stat ops_%s 1\n", variant, std::min<size_t>(o.S, 6), o.nops < 20 ? "lt20" : (o.nops < 200 ? "lt200" : "ge200"));
     if (o.violatePre) std::printf("#stat stream_violating_precondition 1\n");
     if (o.rewardMode) std::printf("#stat reward_mode_%d 1\n", o.rewardMode);
 }
@@ -693,7 +843,34 @@ void verif::verif_case(Rng & rng, long idx, const std::string & tier) {
             scripted<GenericExperience, M::SparseMaximumLikelihoodModel<GenericExperience>>("gsparse", 3, 1,
                 {{CTOR, 0}, {REC, 0, 0, 1, 1.0}, {REC, 0, 0, 2, 2.0}, {SYNC, 0, 0}}, junk, false);
             return;
-        case 10: case 11: return;   // reserved
+        case 10: {  // a DDN node with TWO parent agents and S[k] < A[k]: joint actions (2,0) and (0,1) must address different rows
+            F::DDNGraph g({2, 3}, {3, 2});
+            g.push({{0, 1}, {{1}, {0}, {0, 1}, {1}, {0}, {1}}});
+            g.push({{1}, {{0}, {1}}});
+            CoopRun cr(std::move(g), junk);
+            auto RW = [](std::initializer_list<double> l) { F::Rewards r(l.size()); long i = 0; for (auto x : l) r[i++] = x; return r; };
+            cr.ctor(false);
+            auto i1 = cr.record({1, 2}, {2, 0}, {0, 1}, RW({1.0, 2.0}));
+            cr.syncSA({1, 2}, {2, 0});
+            auto i2 = cr.record({1, 2}, {0, 1}, {1, 2}, RW({3.0, -1.0}));
+            cr.syncIdx({1, 2}, {0, 1}, i2);
+            cr.query({1, 2}, {2, 0}, {0, 1});
+            cr.query({1, 2}, {0, 1}, {1, 2});
+            cr.record({0, 2}, {2, 0}, {1, 1}, RW({5.0, 0.5}));     // same context as the first record for feature 0 (parent = feature 1 only)
+            cr.syncAll();
+            cr.query({0, 2}, {2, 0}, {1, 1});
+            cr.reset();
+            cr.record({1, 0}, {1, 1}, {0, 0}, RW({0.25, 0.75}));
+            cr.ctor(true);
+            cr.query({1, 0}, {1, 1}, {0, 0});
+            (void)i1;
+            cr.finish();
+            std::printf("#stat coop_witness_two_parent_agents 1\n");
+            return;
+        }
+        case 11:   // factored bandit: non-uniform action sizes, non-prefix and three-key dependency tags
+            fbanditCase(rng, 60, 0, junk, true); std::printf("#stat fbandit_witness_shapes 1\n");
+            return;
         default: break;
     }
     long k = idx - kFixed;
